@@ -107,7 +107,7 @@ class ConnProxy:
         r = self._r.commit()
         if sim is not None:
             if self._dml_ok:
-                sim.sql_errors_in_a_row = 0
+                sim.sql_errors_in_a_row[sim.cur] = 0
                 self._dml_ok = False
             sim.stat('commits')
             if sim.tasks:
@@ -168,11 +168,13 @@ class CurProxy:
                     self._c._dml_ok = True
                 return self
             except _sq.OperationalError as e:
-                sim.sql_errors_in_a_row += 1
-                if sim.sql_errors_in_a_row > kernel.LIVELOCK_CAP:
+                nerr = sim.sql_errors_in_a_row.get(sim.cur, 0) + 1
+                sim.sql_errors_in_a_row[sim.cur] = nerr
+                if nerr > kernel.LIVELOCK_CAP:
+                    # a legitimately stalled lock holder (<= 3 x 61 s) costs a waiter at most ~75 failed calls
                     sim.ev('livelock')
-                    raise kernel.Livelock('%d SQL errors in a row without a successful commit, last: %s'
-                                          % (sim.sql_errors_in_a_row, e))
+                    raise kernel.Livelock('%d failed SQL calls in a row by one task without a successful write, last: %s'
+                                          % (nerr, e))
                 if 'locked' not in str(e):
                     sim.stat('sql_error')
                     raise
